@@ -122,7 +122,7 @@ pub trait Prop: Sync {
     fn needs_warm_up(&self) -> bool {
         true
     }
-    /// wall-clock watchdog per run in a batch (a confirmation in a new process gets five times as much)
+    /// wall-clock watchdog per run in a batch (a confirmation in a new process gets twenty times as much, at least 20 min)
     fn watchdog_s(&self) -> u64 {
         60
     }
@@ -323,7 +323,8 @@ pub fn one_main(prop: &'static dyn Prop, scenario: &Value) -> (Option<Violation>
     worker_init(prop);
     seams::set_verbose_panics(true);
     eprintln!("QUALIFIER {}", prop.qualifier(scenario));
-    match run_on_pristine_thread(prop, scenario, Duration::from_secs(prop.watchdog_s() * 5)) {
+    // generous: this process runs alone, and a busy machine must never turn into a "hang" verdict
+    match run_on_pristine_thread(prop, scenario, Duration::from_secs((prop.watchdog_s() * 20).max(1200))) {
         None => (
             Some(Violation::new(format!("{}/hang", prop.id()), 0, "run exceeded the watchdog")),
             0,
@@ -680,7 +681,7 @@ pub fn batch_main(prop: &'static dyn Prop, opts: BatchOpts) -> i32 {
         }
         if sig.ends_with("/hang") && conf.signature.is_none() {
             // the watchdog is wall-clock based: under machine load a long run can trip it; the same
-            // scenario alone, with five times the budget, terminated normally -> not a hang
+            // scenario alone, with twenty times the budget, terminated normally -> not a hang
             println!("note: property={} idx={} tripped the batch watchdog but terminates normally when run alone (machine load); not a violation", prop.id(), idx);
             continue;
         }
